@@ -14,6 +14,8 @@ use tokio_util::sync::CancellationToken;
 use tracing::{Span, error, trace};
 
 pub(crate) use self::remote_state::PathStateReceiver;
+#[cfg(iroh_verif)]
+pub(crate) use self::remote_state::verif_c22;
 use self::remote_state::RemoteStateActor;
 pub(super) use self::remote_state::RemoteStateMessage;
 pub use self::remote_state::{
